@@ -496,6 +496,7 @@ def stage_explore(ctx):
             specs.append(gen_grid_case(rng, tk, "gridsym"))
     tm_specs = [s for s in specs if s["theory"]["kind"] == "tmatrix"]
     other = [s for s in specs if s["theory"]["kind"] != "tmatrix"]
+    nfail_multi = []
     for i, spec in enumerate(other):
         try:
             res = EVAL[spec["mode"]](spec)
@@ -503,11 +504,19 @@ def stage_explore(ctx):
             name = type(e).__name__
             if name == "MultisphereFailure":
                 ctx.count("unsupported:multisphere-no-convergence")
+                nfail_multi.append(spec)
                 continue
             raise
         judge(ctx, spec, res)
         if i < 4:
             ctx.sample(dict(theory=spec["theory"], op=spec["op"], res=res))
+    nmulti = sum(1 for s in other if s["theory"]["kind"] == "multi")
+    # the generator produces small, well separated clusters: on the unchanged tree SCSMFO converged on all of 3 x 600
+    # of them.  A tree on which a sizeable part of them is refused would otherwise pass by exploring nothing.
+    if len(nfail_multi) > max(2, nmulti // 10):
+        ctx.violation("explore:multi:no-convergence",
+                      "Multisphere refused %d of %d small separated clusters (MultisphereFailure)" % (len(nfail_multi), nmulti),
+                      dict(kind="explore", spec=nfail_multi[0], res=None), nofail=True)
     if tm_specs:
         ok, out = run_in_child(lambda ss: [eval_points_case(s) for s in ss], tm_specs)
         if not ok:
@@ -823,6 +832,8 @@ def replay(ctx, data):
                 return
         else:
             res = EVAL[spec["mode"]](spec)
+        if res is None:
+            return
         print("replay: %s %s -> field err %.3g holo err %.3g (tol %.0e)" % (
             spec["theory"]["kind"], spec["op"], res["err_field"], res["err_holo"], TOL[spec["theory"]["kind"]]))
         judge(ctx, spec, res)
